@@ -2,10 +2,14 @@
    ImageRaw's layout; pixel()/as_image() is RawData::load there; hence the refinement to a point -> colour
    map, histories, out-of-bounds writes, the untouched tail of an oversized buffer. *)
 From EG Require Import Base.Prelude Base.Lemmas Model.Rawdata Proofs.Rawdata Model.Framebuffer.
+From EG Require Model.Geometry Model.Target.
 From Coq Require Import ZifyBool.
 
 Ltac Zify.zify_post_hook ::= Z.to_euclidean_division_equations.
 Set Default Timeout 60.
+
+Section WithUsize.
+Context {U : Usize}.
 
 (* ---- ranges of validity ------------------------------------------------------------------------------ *)
 (* WIDTH, HEIGHT fit the `as u32` / `as i32` casts of as_image / pixel; data is the [u8; N] array with
@@ -321,18 +325,38 @@ Proof.
   unfold fb_draw_iter in C. rewrite C. unfold last_write. f_equal. apply fb_set_pixel_spec; auto.
 Qed.
 
-(* operations: set_pixel and draw_iter calls in any order *)
-Inductive fbop := OpSet (p : Z * Z) (v : Z) | OpDrawIter (px : list write).
+(* operations: set_pixel, draw_iter and the three inherited DrawTarget methods (trait defaults), in any order *)
+Inductive fbop :=
+| OpSet (p : Z * Z) (v : Z)
+| OpDrawIter (px : list write)
+| OpFillSolid (area : Geometry.rect) (v : Z)
+| OpFillContiguous (area : Geometry.rect) (colors : Target.stream)
+| OpClear (v : Z).
 Definition fb_step (c : fbcfg) (data : list Z) (o : fbop) : list Z :=
-  match o with OpSet p v => fb_set_pixel c data p v | OpDrawIter px => fb_draw_iter c data px end.
-Definition op_writes (o : fbop) : list write := match o with OpSet p v => [(p, v)] | OpDrawIter px => px end.
-Definition fbop_ok (c : fbcfg) (o : fbop) : Prop := Forall (write_ok c) (op_writes o).
+  match o with
+  | OpSet p v => fb_set_pixel c data p v
+  | OpDrawIter px => fb_draw_iter c data px
+  | OpFillSolid a v => fb_fill_solid c data a v
+  | OpFillContiguous a cs => fb_fill_contiguous c data a cs
+  | OpClear v => fb_clear c data v
+  end.
+(* the pixel writes an operation performs, in order: for the inherited methods what the trait defaults hand
+   to draw_iter (area.points() zipped with the colours) *)
+Definition op_writes (c : fbcfg) (o : fbop) : list write :=
+  match o with
+  | OpSet p v => [(p, v)]
+  | OpDrawIter px => px
+  | OpFillSolid a v => to_writes (Target.szip (Geometry.points a) (Target.Rep v))
+  | OpFillContiguous a cs => to_writes (Target.szip (Geometry.points a) cs)
+  | OpClear v => to_writes (Target.szip (Geometry.points (fb_bounding_box c)) (Target.Rep v))
+  end.
+Definition fbop_ok (c : fbcfg) (o : fbop) : Prop := Forall (write_ok c) (op_writes c o).
 
-Lemma fb_step_is_draw_iter c data o : fb_step c data o = fb_draw_iter c data (op_writes o).
+Lemma fb_step_is_draw_iter c data o : fb_step c data o = fb_draw_iter c data (op_writes c o).
 Proof. destruct o; reflexivity. Qed.
 
 Lemma fb_run_flat c ops : forall data,
-  fold_left (fb_step c) ops data = fb_draw_iter c data (flat_map op_writes ops).
+  fold_left (fb_step c) ops data = fb_draw_iter c data (flat_map (op_writes c) ops).
 Proof.
   induction ops as [|o ops IH]; intros data; [reflexivity|]. cbn [fold_left flat_map].
   rewrite IH, fb_step_is_draw_iter. unfold fb_draw_iter. rewrite fold_left_app. reflexivity.
@@ -342,7 +366,7 @@ Lemma fb_history c ops data q :
   fb_ok c data -> Forall (fbop_ok c) ops ->
   fb_ok c (fold_left (fb_step c) ops data) /\
   buf_len (fold_left (fb_step c) ops data) = buf_len data /\
-  fb_pixel c (fold_left (fb_step c) ops data) q = last_write c q (flat_map op_writes ops) (fb_pixel c data q).
+  fb_pixel c (fold_left (fb_step c) ops data) q = last_write c q (flat_map (op_writes c) ops) (fb_pixel c data q).
 Proof.
   intros Ok F. rewrite fb_run_flat. apply fb_draw_iter_spec; auto.
   clear Ok. induction F as [|o ops Ho F IH]; cbn [flat_map]; [constructor|]. apply Forall_app. split; auto.
@@ -351,7 +375,7 @@ Qed.
 Lemma fb_history_new c n ops q :
   fb_ok c (fb_new n) -> Forall (fbop_ok c) ops ->
   fb_pixel c (fold_left (fb_step c) ops (fb_new n)) q =
-  last_write c q (flat_map op_writes ops) (Pix (if fb_insideb c q then Some 0 else None)).
+  last_write c q (flat_map (op_writes c) ops) (Pix (if fb_insideb c q then Some 0 else None)).
 Proof.
   intros Ok F. destruct (fb_history c ops (fb_new n) q Ok F) as (_ & _ & H). rewrite H, fb_init; auto.
 Qed.
@@ -394,7 +418,7 @@ Lemma fb_tail_untouched_history c ops data k :
   byte_at (fold_left (fb_step c) ops data) k = byte_at data k.
 Proof.
   intros Ok F Hk. rewrite fb_run_flat.
-  assert (G : Forall (write_ok c) (flat_map op_writes ops)).
+  assert (G : Forall (write_ok c) (flat_map (op_writes c) ops)).
   { clear Ok. induction F as [|o ops' Ho F IH]; cbn [flat_map]; [constructor|]. apply Forall_app. split; auto. }
   revert data Ok. induction G as [|o ws Ho G IH]; intros data Ok; [reflexivity|].
   unfold fb_draw_iter. cbn [fold_left].
@@ -617,3 +641,5 @@ Proof.
   assert (Pi : pix_index c (x, y) = y * fb_data_width c + x) by (unfold pix_index; cbn [fst snd]; ring).
   rewrite Z2Nat.id by lia. rewrite <- Pi. unfold d. symmetry. apply load_prefix; auto; lia.
 Qed.
+
+End WithUsize.
